@@ -353,8 +353,12 @@ func init() {
 			stride = 1
 		}
 		off := g.Intn(stride)
+		nconc := 0
 		for i, c := range cases {
-			if i%stride != off {
+			isConc := strings.HasPrefix(c.tag, "concurrent/")
+			if isConc && nconc < n/4 && g.Intn(8) == 0 {
+				nconc++
+			} else if i%stride != off {
 				continue
 			}
 			sc, ok := clParseScenario(strings.Fields(c.line)[1:])
